@@ -246,7 +246,7 @@ Proof.
     apply in_consts_of, in_oks, leaf_of_ok in Hin as (x & Hx & Hp).
     destruct (parse_leaf_kind uc tstr T x _ Hp) as [Hkind _].
     destruct x as [a i g fs|a i g vs|a i g t|a i t e|u|inner]; cbn [c03_leaf_kind_ok] in Hkind; try contradiction.
-    cbn [FrontItems.parse_leaf] in Hp. destruct (const_needs_int_literal uc tstr a i t e _ Hp) as [z Hz].
+    cbn [FrontItems.parse_leaf] in Hp. pose proof (const_needs_int_literal uc tstr a i t e _ Hp) as Hz.
     pose proof (proj1 (existsb_false_all _ _) Ee _ Hx) as Hcand. cbn [c03_const_candidate] in Hcand. rewrite Hz in Hcand. discriminate.
   - cbn [known_C03_file known_C03_src_file] in *.
     destruct (existsb (c03_src_py_collision uc T) (expected_leaves T f)) eqn:Ee; [discriminate|].
